@@ -23,6 +23,7 @@ import (
 	"github.com/btcsuite/btcd/chaincfg/chainhash"
 	"github.com/btcsuite/btcd/wire"
 	"github.com/vulpemventures/go-elements/pegin"
+	"github.com/vulpemventures/go-elements/transaction"
 )
 
 type claimCase struct {
@@ -96,11 +97,16 @@ func callClaim(c *claimCase) (string, []byte) {
 	return "ok", ser
 }
 
+func pegin_Claim(c *claimCase, rate float64) (*transaction.Transaction, error) {
+	return pegin.Claim(&chaincfg.MainNetParams, c.dyn, c.asset, c.genesis, c.fedpeg, c.contract,
+		c.btcTx, c.proof, c.claimScript, rate)
+}
+
 func runClaim(t *Toks) string {
 	c := readClaim(t)
 	cls, ser := callClaim(c)
 	if cls != "ok" {
-		return "res=" + cls
+		return "err res=" + cls
 	}
 	return "res=ok tx=" + hx(ser)
 }
